@@ -3,6 +3,7 @@ from vf import loader
 from vf.core import Clause, Outcome, Violation, require
 
 import numpy as np
+import pandas
 from hypothesis import strategies as st
 
 PROPERTY = "C20"
@@ -45,7 +46,18 @@ def check_frame(case):
     y0, X0, w0 = y.copy(), None if X is None else X.copy(), None if w is None else w.copy()
     facts = dict(past=past, delay2=delay2, same_rows=same_rows, ncol=ncol, weights=w is not None)
 
-    nx, ny, nw = _utils.build_ts_X_y(_model(past, delay2), X, y, w, same_rows=same_rows)
+    # the series (and weights) may come as pandas Series, with the default index or a permuted one (a frame sorted by date and not
+    # re-indexed): time is the position in the series, never the label
+    cont = case.get("container", "array")
+    facts["container"] = cont
+    yin, win = y, w
+    if cont != "array":
+        idx = None if cont == "series" else np.argsort(np.argsort(-np.arange(n) * 7 % max(n, 1) + np.arange(n) / (n + 1.0)))
+        yin = pandas.Series(y, index=idx)
+        win = None if w is None else pandas.Series(w, index=idx)
+    nx, ny, nw = _utils.build_ts_X_y(_model(past, delay2), X, yin, win, same_rows=same_rows)
+    nx, ny = np.asarray(nx), np.asarray(ny)
+    nw = None if nw is None else np.asarray(nw)
 
     require(np.array_equal(y, y0) and (X is None or np.array_equal(X, X0)) and (w is None or np.array_equal(w, w0)),
             "input-modified", "build_ts_X_y wrote into its inputs", facts)
@@ -151,7 +163,7 @@ def _value_cases(draw, tier="quick"):
         X = [[c[t] for c in cols] for t in range(n)]
         xdtype = "int"
     return dict(past=past, delay2=delay2, same_rows=draw(st.booleans()), y=y, X=X, w=w, xdtype=xdtype,
-                dtype=draw(st.sampled_from(["float64", "float32"])))
+                dtype=draw(st.sampled_from(["float64", "float32"])), container=draw(st.sampled_from(["array", "array", "series", "series-permuted"])))
 
 
 # ------------------------------------------------------------------ ts_mape
@@ -162,11 +174,29 @@ def _mape_arrays(case):
     return y, p, w
 
 
+def _mape_call(case, y, p, w):
+    """ts_mape on arrays, lists, column vectors or pandas Series (default or permuted index) holding the same values"""
+    cont = case.get("container", "array")
+    n = len(y)
+    if cont == "list":
+        args = (y.tolist(), p.tolist(), None if w is None else w.tolist())
+    elif cont == "column":
+        args = (y.reshape(-1, 1), p.reshape(-1, 1), w)
+    elif cont in ("series", "series-permuted"):
+        idx = None if cont == "series" else np.arange(n)[::-1].copy()
+        which = case.get("series_args", "both")
+        ys = pandas.Series(y, index=idx) if which in ("both", "y") else y
+        ps = pandas.Series(p, index=idx) if which in ("both", "p") else p
+        args = (ys, ps, None if w is None else pandas.Series(w, index=idx))
+    else:
+        args = (y, p, w)
+    return float(_metrics.ts_mape(args[0], args[1], sample_weight=args[2]))
+
+
 def check_mape_nonneg(case):
     y, p, w = _mape_arrays(case)
-    facts = dict(constant=bool(np.all(y[1:] == y[:-1])), weights=w is not None)
-    v = _metrics.ts_mape(y, p, sample_weight=w)
-    v = float(v)
+    facts = dict(constant=bool(np.all(y[1:] == y[:-1])), weights=w is not None, container=case.get("container", "array"))
+    v = _mape_call(case, y, p, w)
     require(not np.isnan(v), "mape:nan", "ts_mape returned NaN", facts)
     require(v >= 0, "mape:negative", "ts_mape = %r" % v, facts)
     # reference value from the docstring's formula
@@ -182,16 +212,16 @@ def check_mape_nonneg(case):
     elif d2 == 0:
         require(v == 0, "mape:value-0/0", "ts_mape = %r for a perfect forecast of a constant series" % v, facts)
     return Outcome(["constant" if facts["constant"] else "varying", "weights" if w is not None else "no-weights",
-                    "nan-first" if np.isnan(p[0]) else "no-nan"], len(y) >= 3)
+                    "nan-first" if np.isnan(p[0]) else "no-nan", "container:" + case.get("container", "array")], len(y) >= 3)
 
 
 def check_mape_naive(case):
     y, p, w = _mape_arrays(case)
-    v = float(_metrics.ts_mape(y, p, sample_weight=w))
+    v = _mape_call(case, y, p, w)
     require(abs(v - 1.0) <= 1e-12, "mape:naive-not-1", "ts_mape(naive forecast) = %r" % v,
-            dict(weights=w is not None, nan_first=bool(np.isnan(p[0]))))
-    return Outcome(["weights" if w is not None else "no-weights", "nan-first" if np.isnan(p[0]) else "first-arbitrary"],
-                   len(y) >= 3)
+            dict(weights=w is not None, nan_first=bool(np.isnan(p[0])), container=case.get("container", "array")))
+    return Outcome(["weights" if w is not None else "no-weights", "nan-first" if np.isnan(p[0]) else "first-arbitrary",
+                    "container:" + case.get("container", "array")], len(y) >= 3)
 
 
 @st.composite
@@ -225,7 +255,8 @@ def _mape_cases(draw, naive=False):
         if draw(st.integers(0, 4)) == 0:
             p = [p[0]] + y[1:]  # perfect forecast
     w = draw(st.one_of(st.none(), st.lists(st.integers(1, 32).map(lambda k: k / 4.0), min_size=n, max_size=n)))
-    return dict(y=y, p=p, w=w)
+    return dict(y=y, p=p, w=w, container=draw(st.sampled_from(["array", "array", "list", "column", "series", "series-permuted"])),
+                series_args=draw(st.sampled_from(["both", "y", "p"])))
 
 
 CLAUSES = [
